@@ -16,6 +16,7 @@ PROPS = {
     ]},
     "C03": {"jobs": [
         rapid("C03a", 5000, 25000, shards=8, race_shards=2),
+        rapid("C03b", 60, 300, shards=2),
     ]},
     "C04": {"jobs": [
         rapid("C04a", 5000, 25000, shards=8, race_shards=1),
@@ -53,6 +54,7 @@ PROPS = {
     ]},
     "C08": {"jobs": [
         rapid("C08a", 1500, 6000, shrinktime="15s"),
+        {"sub": "C08f", "kind": "fuzz", "run": "FuzzC08Datagram", "tiers": ["thorough"], "quick": 0, "thorough": 60},
     ]},
     "C10": {"jobs": [
         rapid("C10a", 1500, 6000, shrinktime="15s"),
@@ -81,5 +83,6 @@ PROPS = {
         rapid("C15c", 20000, 60000, shards=4),
         rapid("C15d", 10000, 40000, shards=2),
         rapid("C15e", 2000, 5000, shards=2),
+        {"sub": "C15f", "kind": "fuzz", "run": "FuzzC15Decode", "tiers": ["thorough"], "quick": 0, "thorough": 90},
     ]},
 }
